@@ -1305,14 +1305,14 @@ def run(ctx):
 
     # first the recursion, the node update, the refresh walks and the queries they rest on against the frozen
     # reference semantics: a semantic change is reported even where a shape rule below would give up
-    rule_TS(ctx, owners=["tree_node.TreeNode", "tree.Tree", "tree.utils", "utils.math"])
-    rule_N1(ctx)
-    rule_N2(ctx)
-    rule_N3(ctx)
-    rule_N4(ctx)
-    rule_N5(ctx)
-    rule_N6(ctx)
-    rule_N7(ctx)
+    ctx.soft(rule_TS, owners=["tree_node.TreeNode", "tree.Tree", "tree.utils", "utils.math"])
+    ctx.soft(rule_N1)
+    ctx.soft(rule_N2)
+    ctx.soft(rule_N3)
+    ctx.soft(rule_N4)
+    ctx.soft(rule_N5)
+    ctx.soft(rule_N6)
+    ctx.soft(rule_N7)
     # the recursion is evaluated through two memoised entry points: the reported likelihood is the exact
     # marginal only if a cache hit returns what the recursion would compute (same rule objects as C14)
     from . import C14
